@@ -306,8 +306,7 @@ def truncList (eps : Rat) (l : List CRat) : Except Err (List Rat) := l.mapM (tru
 def realList (l : List CRat) : List Rat := l.map (·.re)
 
 /-- row-major list of the entries (`matrix.flatten().tolist()`) -/
-def matList {α : Type} {m n : Nat} (A : Mat α m n) : List α :=
-  A.toList.flatMap fun r => r.toList
+def matList {α : Type} {m n : Nat} (A : Mat α m n) : List α := (flat A).toList
 
 /-- `to_vec_from_density_matrix_with_sparsity` / `to_vec_from_matrix_with_sparsity` as executed:
 the complex coefficients `np.vdot(B_a, ρ)` go through `truncate_hs` (guard + `.real` + fluctuation cut) -/
@@ -323,6 +322,28 @@ def hsOfChoiSparse {d : Nat} (eps : Rat) (B : Basis CRat d (d * d)) (choi : Mat 
 def hsOfChoiDict {d : Nat} (eps : Rat) (B : Basis CRat d (d * d)) (choi : Mat CRat (d * d) (d * d)) :
     Except Err (List Rat) :=
   truncList eps (matList (hsOfChoiDictRaw B choi))
+
+/-- `to_hs_from_choi` as executed: `.real` of the trace, WITHOUT the imaginary-part guard of the other two variants -/
+def hsOfChoiLoop {d : Nat} (B : Basis CRat d (d * d)) (choi : Mat CRat (d * d) (d * d)) : List Rat :=
+  realList (matList (hsOfChoiLoopRaw B choi))
+
+/-- `to_hs_from_kraus_matrices` as executed (through `truncate_hs`); the empty list is rejected before (`sum([])` has no shape) -/
+def hsOfKraus {d : Nat} (eps : Rat) (B : Basis CRat d (d * d)) (ks : List (Mat CRat d d)) : Except Err (List Rat) :=
+  if ks.isEmpty then .error .emptyKraus else truncList eps (matList (hsOfKrausRaw B ks))
+
+/-- `to_var_from_density_matrix(c_sys, ρ, on_para_eq_constraint)`: `to_vec_from_density_matrix_with_sparsity` (default
+threshold), then `np.delete(vec, 0)` when `onEq` -/
+def toVarFromDensity {d n : Nat} (eps : Rat) (B : Basis CRat d n) (rho : Mat CRat d d) (onEq : Bool) :
+    Except Err (List Rat) := do
+  let v ← vecOfDensity eps B rho
+  pure (if onEq then v.drop 1 else v)
+
+/-- `to_var_from_matrices(c_sys, matrices, on_para_eq_constraint)`: `to_vecs_from_matrices_with_sparsity` (one `truncate_hs`
+per matrix, the first failure raises), `del var[-1]` when `onEq`, `np.hstack` -/
+def toVarFromMatrices {d n : Nat} (eps : Rat) (B : Basis CRat d n) (ms : List (Mat CRat d d)) (onEq : Bool) :
+    Except Err (List Rat) := do
+  let vecs ← ms.mapM (vecOfDensity eps B)
+  pure ((if onEq then vecs.dropLast else vecs).flatMap id)
 
 /-- `to_var_from_choi` as executed: `truncate_hs` runs on the whole HS matrix (row 0 included) inside
 `to_hs_from_choi_with_sparsity`; then `convert_hs_to_var` deletes row 0 (`onEq`) and flattens.
@@ -386,11 +407,11 @@ structure EigPair (d : Nat) where
 def closeZero (x atol : Rat) : Bool := rabs x ≤ atol
 
 /-- `mutil.is_hermitian(M, atol)`: `allclose(M, M^†, atol, rtol=0)` entrywise on complex numbers uses
-`|z| ≤ atol`; the model tests the squared modulus. -/
+`|z| ≤ atol`; the model tests `0 ≤ atol ∧ |z|² ≤ atol²` (for a negative `atol` numpy's test is false for every entry). -/
 def isHermitian {n : Nat} (M : Mat CRat n n) (atol : Rat) : Bool :=
   (List.finRange n).all fun i => (List.finRange n).all fun j =>
     let z := M.get i j - conj (M.get j i)
-    z.re * z.re + z.im * z.im ≤ atol * atol
+    decide (0 ≤ atol) && decide (z.re * z.re + z.im * z.im ≤ atol * atol)
 
 /-- `is_cp`: Choi matrix Hermitian and every eigenvalue not close to zero is ≥ 0 -/
 def isCp {d : Nat} (choi : Mat CRat (d * d) (d * d)) (eigs : List (EigPair d)) (atol : Rat) : Bool :=
@@ -535,6 +556,22 @@ def handle (args : List String) : Option String :=
       let rho ← toMat? d d (← parseCList? rho)
       let eps ← parseRat? eps
       some (showR (vecOfDensity eps B rho))
+  | ["toVarFromDensity", d, n, basis, rho, eps, onEq] => do
+      let d ← parseNat? d; let n ← parseNat? n
+      let B ← toBasis? d n (← parseCList? basis)
+      let rho ← toMat? d d (← parseCList? rho)
+      let eps ← parseRat? eps
+      let onEq ← (if onEq = "1" then some true else if onEq = "0" then some false else none)
+      some (showR (toVarFromDensity eps B rho onEq))
+  | ["toVarFromMatrices", d, n, basis, m, mats, eps, onEq] => do
+      let d ← parseNat? d; let n ← parseNat? n; let m ← parseNat? m
+      let B ← toBasis? d n (← parseCList? basis)
+      let l ← parseCList? mats
+      if l.length ≠ m * (d * d) then none
+      let ms ← (chunks (d * d) m l).mapM (toMat? d d)
+      let eps ← parseRat? eps
+      let onEq ← (if onEq = "1" then some true else if onEq = "0" then some false else none)
+      some (showR (toVarFromMatrices eps B ms onEq))
   | ["povmMatrix", d, n, basis, m, vecs, idx] => do
       let d ← parseNat? d; let n ← parseNat? n; let m ← parseNat? m; let idx ← parseNat? idx
       let B ← toBasis? d n (← parseCList? basis)
@@ -605,7 +642,7 @@ def handle (args : List String) : Option String :=
       let d ← parseNat? d
       let B ← toBasis? d (d * d) (← parseCList? basis)
       let c ← toMat? (d * d) (d * d) (← parseCList? choi)
-      some ("ok " ++ showList showRat (realList (matList (hsOfChoiLoopRaw B c))))
+      some ("ok " ++ showList showRat (hsOfChoiLoop B c))
   | ["hsOfChoiDict", d, basis, choi, eps] => do
       let d ← parseNat? d
       let B ← toBasis? d (d * d) (← parseCList? basis)
@@ -642,8 +679,7 @@ def handle (args : List String) : Option String :=
       if l.length ≠ k * (d * d) then none
       let ks ← (chunks (d * d) k l).mapM (toMat? d d)
       let eps ← parseRat? eps
-      if ks.isEmpty then some "err emptyKraus"
-      else some (showR (truncList eps (matList (hsOfKrausRaw B ks))))
+      some (showR (hsOfKraus eps B ks))
   | ["processMatrix", d, basis, hs] => do
       let d ← parseNat? d
       let B ← toBasis? d (d * d) (← parseCList? basis)
